@@ -66,10 +66,19 @@ def audit(prop, theorems):
             discharged += 1
         else:
             problems.append('theorem %s uses axioms %s' % (n, sorted(ax - ALLOWED_AXIOMS)))
+    # thorough tier: the compiled modules holding the property's theorems are replayed by leanchecker, the toolchain's independent
+    # re-checker of .olean files (every declaration goes through the kernel again, outside the elaborator that produced it)
+    recheck = None
+    if os.environ.get('VERIF_TIER_EFFECTIVE') == 'thorough' and mods and not problems:
+        t1 = time.time()
+        p = subprocess.run(['lake', 'env', 'leanchecker'] + mods, cwd=LEAN, capture_output=True, text=True)
+        recheck = dict(modules=mods, exit=p.returncode, secs=round(time.time() - t1, 1))
+        if p.returncode != 0:
+            problems.append('leanchecker rejected a module: ' + (p.stdout + p.stderr)[-800:])
     if problems:
         discharged = min(discharged, len(theorems) - 1) if len(theorems) else 0
     return dict(obligations=len(theorems), discharged=discharged if not problems else discharged, problems=problems,
-                axioms=axioms, names=[t['name'] for t in theorems], secs=time.time() - t0,
+                axioms=axioms, names=[t['name'] for t in theorems], secs=time.time() - t0, kernel_recheck=recheck,
                 checker_cmd='cd /verif/lean && lake build %s && lake env lean work/audit/Audit%s.lean  (#print axioms per theorem)' % (' '.join(mods), prop))
 
 
